@@ -91,18 +91,13 @@ Theorem susc_part_compute_src_is_model :
 Proof. exact LehmannGenProofsSusc.susc_part_compute_src_is_model. Qed.
 Print Assumptions susc_part_compute_src_is_model.
 
-(** the add_term of the source and of the model: see add_term_src_agrees_with_model / add_term_forms_differ in Properties_C01_source.v;
-    with the library's comparator (a strict partial order) the source computes the model's part whenever no added term is like
-    two stored ones *)
+(** the add_term of the source is the add_term of the model (add_term_src_agrees_with_model in Properties_C01_source.v, no
+    hypothesis): the source computes the model's part, whatever the tolerances *)
 Theorem susc_part_compute_src_tolerance :
   forall (K : Type) (NO : numops K) (lenient : bool) (T : tols K) (blk : nat * nat) (inp : part_in K),
-  (forall a, susc_compare K NO (t_compare K T) a a = false) ->
-  (forall a b c, susc_compare K NO (t_compare K T) a b = true -> susc_compare K NO (t_compare K T) b c = true ->
-                 susc_compare K NO (t_compare K T) a c = true) ->
   forall o, susc_part_compute K NO susc_chase_guarded lenient T inp = WDone o ->
-  susc_unambiguous K NO T (s_kept K (so_raw K o)) = true ->
   susc_part_compute_src K NO lenient T blk inp = WDone (spart_result K o).
-Proof. exact LehmannGenProofsSusc.susc_part_compute_src_strict. Qed.
+Proof. exact LehmannGenProofsSusc.susc_part_compute_src_agrees. Qed.
 Print Assumptions susc_part_compute_src_tolerance.
 
 (** exact form: value(z) = sum_{n,m} A[n,m] B[m,n] * ( resonant(E_m - E_n) ? [|z| < 1e-15] beta w_n : (w_m - w_n)/(z - (E_m - E_n)) ) *)
@@ -175,12 +170,11 @@ Theorem susc_prepare_src_selects_stripes :
 Proof. exact LehmannGenProofsSusc.susc_prepare_src_selects_stripes. Qed.
 Print Assumptions susc_prepare_src_selects_stripes.
 
-(** the whole object, exact form: prepare() (PV.GFPart.gf_prepare), compute() of every part of the source *)
+(** the whole object: prepare() (PV.GFPart.gf_prepare), compute() of every part of the source (no hypothesis on the comparator) *)
 Theorem susc_compute_src_is_model :
   forall (K : Type) (NO : numops K) (lenient : bool) (T : tols K) (g : gf_in K),
-  (forall a b, susc_compare K NO (t_compare K T) a b = false -> susc_compare K NO (t_compare K T) b a = true) ->
   susc_compute_src K NO lenient T g = wmap (results_of_parts K) (susc_compute K NO susc_chase_guarded lenient T g).
-Proof. exact LehmannGenProofsSusc.susc_compute_src_total. Qed.
+Proof. exact LehmannGenProofsSusc.susc_compute_src_eq. Qed.
 Print Assumptions susc_compute_src_is_model.
 
 (** * 6. imaginary time: Term::operator()(tau, beta) of the source transforms to Term::operator()(i W) (classical reals) *)
